@@ -26,7 +26,8 @@ var verifC07Tables = [][]verifRouteDef{
 
 func verifNamedTable(r *Router, defs []verifRouteDef) {
 	for i, d := range defs {
-		r.AddNamed(string(rune('A'+i)), d.pat, verifNop, d.methods...)
+		// (each route carries one middleware, so that "same middleware" is not vacuous)
+		r.AddNamed(string(rune('A'+i)), d.pat, verifNop, d.methods...).Use(verifNop)
 	}
 }
 
@@ -163,6 +164,11 @@ func verifHarness_C07_served() {
 		offSeen = append(offSeen, append([]seen(nil), *logOff...))
 	}
 	for k := 0; k < K; k++ {
+		// (between two served requests the application also asks the router directly, which
+		// takes whatever the lookup takes without a request ever ending)
+		if k > 0 {
+			rOn.Match("GET", paths[(k+1)%K])
+		}
 		*logOn = nil
 		rOn.ServeHTTP(verifNewWriter(), verifRequest("GET", paths[k]))
 		same := len(offSeen[k]) == len(*logOn)
